@@ -22,7 +22,7 @@ from vf import real
 from vf.contracts.common import Agg, struct_vc
 from vf.contracts.prep import Patched, scores_like
 from vf.report import Result
-from vf.sym.core import PathLimit, ctx, explore
+from vf.sym.core import assume, PathLimit, ctx, explore
 from vf.sym.ldom import LDA, LCoord, CoordId, mk_input, ops_in
 from vf.sym.terms import named_ext
 
@@ -59,7 +59,12 @@ def to_z3(val, env):
             return to_z3(val[2], env)
         raise KeyError("concat of several items")
     if h == "block":
+        if isinstance(val[4], tuple) and val[4][0] == "concat" and len(val[4]) > 3:
+            raise KeyError("block of a concatenation that is not one of its items")
         return to_z3(val[4], env)
+    if h == "block-item":
+        env.setdefault("__items__", set()).add(val[1])
+        return to_z3(val[2], env)
     raise KeyError(h)
 
 
@@ -81,6 +86,9 @@ def trace_struct(sample, feature, order, multiindex=(), flags=None, nlist=1):
                          with_std=flags.get("std", False), with_coslat=flags.get("coslat", False), compute=True)
         Xs = [mk_input(f"X{i}" if nlist > 1 else "X", sample, feature, order=order, multiindex=multiindex, feature_tag=f"fit{i}" if nlist > 1 else "fit")
               for i in range(nlist)]
+        for x in Xs:
+            for e_ in x._ext.values():
+                assume(e_.z >= 1)           # no empty dimension
         if nlist > 1:
             # list items share the sample labels; a later item may carry them in another order
             for j, x in enumerate(Xs[1:]):
@@ -130,9 +138,11 @@ def structures(tier):
     return out
 
 
-def deductive(res, agg):
+def deductive(res, agg, only_lists=False):
     fn = "Preprocessor.inverse_transform_data"
     for st in structures("quick"):
+        if only_lists and not st.get("nlist"):
+            continue
         cfg = f"dims={','.join(st['order'])};sample={','.join(st['sample'])}" + (f";multiindex={st['multiindex']}" if st.get("multiindex") else "") + \
               (f";{st['flags']}" if st.get("flags") else "") + (f";list{st['nlist']}" if st.get("nlist") else "")
         try:
@@ -168,6 +178,9 @@ def deductive(res, agg):
                     val = pick_block(b.val, i) if len(o["X"]) > 1 else b.val
                     e = to_z3(val, env)
                     x = env.get(("in", X.val[1]))
+                    items = env.pop("__items__", set())
+                    if len(o["X"]) > 1:
+                        agg.vc(fn, "list item i is cut from the i-th block of the concatenated matrix", struct_vc(items == {i}, f"item {i} cut from block(s) {sorted(items)}"), cfg)
                     s = z3.Solver()
                     s.set("timeout", 10000)
                     for k_, v_ in env.items():
